@@ -45,14 +45,13 @@ Proof.
     2:{ eapply IH; eauto. }
     destruct (negb (mem mc cms) || (Z.land (rp_bit rp) avail =? 0)) eqn:Eo; [discriminate|].
     apply orb_false_iff in Eo as [Eo _]. apply negb_false_iff in Eo. apply mem_In in Eo.
-    destruct mc; try discriminate.
-    + (* CLAIMTOBE *)
-      destruct (rp_ack rp).
+    destruct (meth_eqb mc mPW).
+    + (* PASSWORD stub *) eapply IH; eauto.
+    + destruct (rp_res rp).
       * destruct (rp_haskey_ok rp); [|discriminate]. inversion H; subst. split; [assumption|].
         exists ran. split; [reflexivity | exact Hf].
       * eapply IH; [|exact H]. apply all_failed_app; [assumption | apply all_failed_one].
-    + (* PASSWORD stub *)
-      eapply IH; eauto.
+      * discriminate.
 Qed.
 
 (* ---- the server's loop --------------------------------------------------------- *)
@@ -67,11 +66,12 @@ Proof.
   destruct (srv_select sm (m_mask st)) as [ms|] eqn:Es.
   2:{ eapply IH; eauto. }
   apply srv_select_some in Es as [Hin _].
-  destruct ms; try discriminate.
-  - destruct (m_claim st); try discriminate.
+  destruct (meth_eqb ms mPW).
+  - eapply IH; eauto.
+  - destruct (m_res st).
     + inversion H; subst. split; [assumption|]. exists ran. split; [reflexivity | exact Hf].
     + eapply IH; [|exact H]. apply all_failed_app; [assumption | apply all_failed_one].
-  - eapply IH; eauto.
+    + discriminate.
 Qed.
 
 (* ---- what a successful handshake implies, per role -------------------------------- *)
